@@ -230,7 +230,12 @@ func classifyReturns(fn *ssa.Function) []retClass {
 func ruleSplit(c *Ctx) {
 	var fns []*splitFn
 	for _, fn := range c.srcFuncs("interp") {
-		if fn.Parent() != nil || !isSplitFunc(fn) || fn.Signature.Recv() == nil {
+		if !isSplitFunc(fn) {
+			continue
+		}
+		// methods with the signature of a bufio.SplitFunc, and function literals with it (a splitter written as a
+		// closure over its state); plain package functions with that signature are helpers
+		if fn.Signature.Recv() == nil && fn.Parent() == nil {
 			continue
 		}
 		s := &splitFn{fn: fn}
